@@ -753,7 +753,12 @@ def bind_by_position(c):
 def param(lc, role):
     """entry value of the parameter with this role (loop invariants)"""
     real = getattr(lc.ex.contract, "aliases", {}).get(role, role)
-    v = lc.entry.lookup(real)
+    if lc.ex.inline_depth > 0:
+        # the loop was moved into a helper the driver calls: the helper's locals are not the driver's parameters
+        ec = getattr(lc.ex, "entry_ctx", None)
+        v = ec.args.get(real) if ec is not None else None
+    else:
+        v = lc.entry.lookup(real)
     if v is None:
         raise ops.Unsupported(f"parameter `{role}` not found")
     return v
@@ -903,7 +908,7 @@ def mode_contracts(reg):
         if z3.is_int_value(z3.simplify(on0)) and z3.simplify(on0).as_long() == 0:
             if lc.i is None:
                 raise ops.Unsupported("growing buffer in a loop without an iteration index")
-            return on == 16 * lc.i
+            return on == 16 * block_index(lc)
         return on == n
 
     def env_items(st):
@@ -936,6 +941,30 @@ def mode_contracts(reg):
                     if isinstance(x, ast.Name) and x.id == n.targets[0].id and isinstance(y, ast.Constant) and isinstance(y.value, int):
                         out.append((x.id, y.value))
         return out
+
+    def blocks_before(lc):
+        """number of blocks already finished when the loop is entered (a peeled first block, a loop that starts at block 1): the
+        entry value of the counter the loop advances by one block size, when that is a concrete multiple of 16; else 0"""
+        for (nme, step) in induction(lc):
+            v0 = lc.entry.lookup(nme)
+            if step != 16 or v0 is None:
+                continue
+            try:
+                t = z3.simplify(ops.int_term(v0))
+            except Exception:  # noqa -- not an integer local
+                continue
+            if z3.is_int_value(t) and t.as_long() > 0 and t.as_long() % 16 == 0:
+                return t.as_long() // 16
+        return 0
+
+    def block_index(lc):
+        """index of the block the coming iteration works on = blocks finished so far"""
+        k0 = blocks_before(lc)
+        if k0 == 0:
+            return lc.i
+        if lc.i is None:
+            raise ops.Unsupported("peeled loop without an iteration index")
+        return lc.i + k0
 
     def counters_ok(lc):
         cs = []
@@ -973,7 +1002,7 @@ def mode_contracts(reg):
         def inv_point(lc, j):
             n, a = M.arr_of(param(lc, "data"))
             on, oa = out_buffer(lc)
-            return M.ecb_at(fns, round_keys_of(lc), a, oa, lc.i, j)
+            return M.ecb_at(fns, round_keys_of(lc), a, oa, block_index(lc), j)
 
         def post(c):
             n, a = M.arr_of(c.args["data"])
@@ -1028,12 +1057,12 @@ def mode_contracts(reg):
             if ch is not None:
                 v = lc[ch]
                 cs.append((z3.IntVal(len(v.items)) if isinstance(v, VBytes) else v.length) == 16)
-                cs += [p_ == c_ for p_, c_ in zip(prev_terms(v), M.chain(lc.i, iva, chained))]
+                cs += [p_ == c_ for p_, c_ in zip(prev_terms(v), M.chain(block_index(lc), iva, chained))]
             return z3.And(cs)
 
         def inv_point(lc, j):
             n, a, iva, on, oa = parts(lc)
-            return at(round_keys_of(lc), iva, a, oa, lc.i, j)
+            return at(round_keys_of(lc), iva, a, oa, block_index(lc), j)
 
         def post(c):
             n, a = M.arr_of(c.args["data"])
@@ -1339,13 +1368,14 @@ def post_report(contract, rep):
                 o["reason"] = f"contract of role {contract.role} on a function matched by data flow: " + (o.get("reason") or "")
     if getattr(contract, "role", "") in DRIVERS:
         # the drivers' loops are cut by invariants that this pack GUESSES from the roles of the locals (output buffer, counters,
-        # chaining block): a VC that fails may only mean that the guessed invariant does not fit a restructured loop.  Such a
-        # model is no counterexample to the property: `unknown`, and the native replayer (differential runs of all four
-        # drivers over short and long messages, wrong lengths) decides.
+        # chaining block): a VC that fails ON A PATH THROUGH THE CUT may only mean that the guessed invariant does not fit a
+        # restructured loop.  Those paths are tagged by the executor (C20Executor.havoc_loop_state: `__havoc__@loop cut ...`), so
+        # verify.discharge already reports such a refutation as `unknown`; the invariant's own initialisation VC is demoted here.
+        # A refutation on a path that never reaches the loop (length checks, early returns) is a definite model of the real code.
         for o in rep.obligations:
-            if o["status"] == "refuted":
+            if o["status"] == "refuted" and "/inv-init#" in o["id"]:
                 o["status"] = "unknown"
-                o["reason"] = "fails under the inferred loop invariant (not a definite counterexample): " + (o.get("reason") or "")
+                o["reason"] = "the inferred loop invariant does not hold at loop entry (not a definite counterexample): " + (o.get("reason") or "")
     for o in rep.obligations:
         if o["id"].endswith("#iv-is-drawn-from-the-randomness-source-within-this-call") and o["status"] == "refuted":
             o["status"] = "unknown"
